@@ -163,7 +163,7 @@ def _ob_weights(op, pieces=1):
         if op in ('close_full', 'emergency_open'):
             I.check('user_without_open_position_has_no_weight', smt.Eq(after['alice'], 0))
             snaps = dict(weights_of(I, 'alice', LP1))
-            I.check('weight_history_cleared_when_no_open_position', len(snaps) == 0)
+            # (whether the history is deleted or zeroed is an implementation choice; the property is the zero weight checked above)
     return s
 
 
@@ -176,7 +176,7 @@ for _op in c05.OPS:
     obligation('C10', 'S1.weights_after_%s' % _op, entries=['execute', 'update_weights', 'get_latest_address_weight', 'reconcile_user_state', 'calculate_weight'],
                kind='S', statement='%s: the total LP weight and the weight of the acting user recorded for the next epoch move by exactly the same amount (closed positions, '
                                    'claims and farm operations move nothing); the weights in effect for the current epoch are untouched; the total still covers the users; '
-                                   'a user left without open positions has no weight and no history' % _op,
+                                   'a user left without open positions has no weight' % _op,
                bounds='state of C05 with the weight of alice equal to the weight of her single-piece position; symbolic amounts', covers=['ok'],
                replay=_replay_w(_op))(_ob_weights(_op))
 
